@@ -13,6 +13,7 @@
 //   getdrvnull                 -> null                      (identifier == NULL)
 //   nullself                   -> every entry point with self == NULL and self->impl == NULL
 //   open <index>               -> ok id=<device> k=<kind> n=<hexname> | err    (get, get_driver, driver_open_device)
+//   openh <index>              -> the same, after every other enumerated device has been opened and closed in the same process
 //   first <kind>               -> ok ... | err
 //   default <kind>             -> ok ... | err
 //   sel <kind> <hex|-|NULL> <len>  -> (ok ... | err) | re=<ok|bad> mv=<bits>
@@ -590,6 +591,23 @@ main(int argc, char** argv)
             unsigned long long i = 0;
             is >> i;
             ChildOut r = run_child([&] { op_open((uint32_t)i); }, watchdog_ms);
+            print_child(r, false);
+        } else if (op == "openh") {
+            // history independence of open: every other enumerated device (of every driver) is opened and closed first, in the same process
+            unsigned long long i = 0;
+            is >> i;
+            ChildOut r = run_child([&] {
+                for (uint32_t j = 0; j < (uint32_t)g_enum.size(); ++j) {
+                    if (j == (uint32_t)i || !g_enum_ok[j]) continue;
+                    DeviceIdentifier id;
+                    sentinel(id);
+                    if (device_manager_get(&id, &g_dm, j) != Device_Ok) continue;
+                    Driver* d = device_manager_get_driver(&g_dm, &id);
+                    Device* dev = 0;
+                    if (d && driver_open_device(d, id.device_id, &dev) == Device_Ok && dev) driver_close_device(dev);
+                }
+                op_open((uint32_t)i);
+            }, watchdog_ms);
             print_child(r, false);
         } else if (op == "first" || op == "default") {
             unsigned long long k = 0;
